@@ -18,17 +18,8 @@
 #include <cstring>
 #include <string>
 
-static const char* err_name(int code)
-{
-    switch (code)
-    {
-    case 3: return "err:buffer-too-small";
-    case 10: return "err:bad-array-length";
-    case 11: return "err:bad-union-tag";
-    case 12: return "err:bad-delimiter-header";
-    default: return "err:unknown-code";
-    }
-}
+#include "c04_codes.h"  // written by harness/c04.py from the translated table of documented codes
+#define err_name(code) c04_cpp_err_name(code)
 
 template <typename T>
 static bool handle(const char* op, const char* rest, int check)
